@@ -32,6 +32,8 @@ try:
                 demo_src = os.path.join(root, f)
     shutil.copyfile(demo_src, os.path.join(wt, demo_rel))
     run = meta["demo"]["run"].split("   (")[0].split("  (")[0].strip()
+    import re
+    run = re.sub(r"^cd \S+ && ", "", run)
     r = sh(run); rec["demo_fails_with_patch"] = r.returncode != 0
     sh("git apply -R %s" % patch)
     r = sh(run); rec["demo_passes_without_patch"] = r.returncode == 0
